@@ -286,6 +286,9 @@ def run_property(prop, tier, seed):
 
         def clean(insts):
             return bool(insts) and all(i['verdict'] == 'pass' or (prop, i['key']) in known0 for i in insts)
+
+        def strip_g(path):
+            return mirlib.strip_generics(path)
         taken = []
         # helpers with one call site (a block moved out), then up to three (a shared block factored out), then every private helper
         try:
@@ -301,11 +304,19 @@ def run_property(prop, tier, seed):
             singles = []
         # one helper at a time (what a single "extract function" refactoring undoes), then all helpers with one call site, up to
         # three, and finally every private same-file helper
-        for only, max_sites in [({h}, 1000) for h in singles] + [(None, 1), (None, 3), (None, 1000)]:
+        # ... and the private methods of one type together (a small helper type usually gets its constructor and its mutators at once)
+        by_type = {}
+        for h in singles:
+            it = facts_a.bodies[h].impl_of
+            if it:
+                by_type.setdefault(it, set()).add(h)
+        groups = [(g, 1000) for g in by_type.values() if len(g) > 1]
+        for only, max_sites in [({h}, 1000) for h in singles] + groups + [(None, 1), (None, 3), (None, 1000)]:
             if not any(i['verdict'] != 'pass' and (prop, i['key']) not in known0 for i in res_a.instances):
                 break
             try:
-                facts = facts_a.inlined_view(max_sites=max_sites, only=only)
+                facts_b = facts_a.inlined_view(max_sites=max_sites, only=only)
+                facts = facts_b
                 res = Results(prop, tier)
                 res.repo, res.facts_dir = REPO, fdir
                 guarded(mod.run)
@@ -330,7 +341,16 @@ def run_property(prop, tier, seed):
                     if b_internal:
                         merged += ia
                     continue
-                if clean(ia) or not clean(ib):
+                # the other view may answer for the rule only if it lost nothing on the way: it has at least as many located instances
+                # (an instance that merely disappears - its function was inlined away - would otherwise hide a finding), and every
+                # located finding of this view is either present and passing there, or sat in a function that view has dissolved
+                na = [i for i in ia if i['verdict'] != 'anchor-lost']
+                nb_ = [i for i in ib if i['verdict'] != 'anchor-lost']
+                gone = set(facts_a.bodies) - set(facts_b.bodies)
+                bkeys = {i['key'] for i in ib if i['verdict'] == 'pass'}
+                explained = all(i['verdict'] in ('pass', 'anchor-lost') or (prop, i['key']) in known0 or i['key'] in bkeys
+                                or any(strip_g(h) in i['key'] for h in gone) for i in ia)
+                if clean(ia) or not clean(ib) or len(nb_) < len(na) or not explained:
                     merged += ia
                 else:
                     for i in ib:
